@@ -52,7 +52,13 @@ def run(ctx, mod, args):
 
     # 1. proof obligations: regenerate extracted constants, build, audit
     if hasattr(mod, "extract"):
-        mod.extract(ctx)
+        try:
+            mod.extract(ctx)
+        except vlib.subprocess.TimeoutExpired:
+            raise
+        except Exception as e:   # a constant is no longer where/what it was: the proof obligations about it cannot be checked
+            ctx.proof_problems.append(f"extraction of constants from /repo failed ({type(e).__name__}: {str(e)[:300]}); "
+                                      "the theorems were checked against the constants of an earlier tree only")
     if hasattr(mod, "ANCHORS"):
         vlib.check_anchors(ctx, mod.ANCHORS)
         if ctx.drifted_anchors:
